@@ -582,6 +582,34 @@ def main(run):
                           "a method declared outside the module of lib's Point with receiver `%s%s::Point` is accepted%s"
                           % (recv, alias_of(shape), " and accesses the private field y through it" if what != "read-exported" else ""),
                           {"files": files, "entry": "proj/main.fer", "cmd": "ferret -t proj/main.fer", "expected": "rejected"})
+    # ---- reference-free family: a value whose struct type is declared in a module the accessing module does NOT import itself
+    # (main -> mid -> lib; mid hands out lib's Point): the private-field rule must not depend on the type's symbol being visible
+    # by name from the accessing module (seed C12e: the selector check gave up when the type symbol was not found among the
+    # direct imports)
+    treqs, tmeta = [], []
+    mid_raw = ("\ntype Wrap struct { .P: lib::Point, .n: i32 };\nfn Open() -> lib::Point { return lib::Mk(); }\n"
+               "fn OpenW() -> Wrap { return { .P = lib::Mk(), .n = 1 } as Wrap; }\n")
+    for body, what, must_reject in (("let v := mid::Open(); let a := v.y;", "read v.y", True), ("let v := mid::Open(); v.y = 3;", "write v.y", True),
+                                    ("let v := mid::Open(); let a := v.X;", "read v.X", False), ("let w := mid::OpenW(); let a := w.P.y;", "read w.P.y", True),
+                                    ("let w := mid::OpenW(); let a := w.P.X;", "read w.P.X", False), ("let w := mid::OpenW(); w.P.y += 1;", "w.P.y += 1", True),
+                                    ("let w := mid::OpenW(); let a := w.n;", "read w.n", True),
+                                    ("let v := mid::Open(); let f := fn() -> i32 { return v.y; };", "read v.y in a closure", True)):
+        mods = [lib_module("proj/lib"), dict(path="proj/mid", imports=[("lib", "proj/lib", False)], decls=[], raw=mid_raw),
+                dict(path="proj/main", imports=[("mid", "proj/mid", False)], decls=[], raw="\nfn main() { %s }\n" % body)]
+        entry, files = write_project(mods, work.sub("tt%d" % len(treqs)))
+        treqs.append(dict(id=len(treqs), file=entry, mode="t")); tmeta.append((what, must_reject, files))
+    tres = common.batch_compile(treqs)
+    for i, (what, must_reject, files) in enumerate(tmeta):
+        run.case(files["proj/main.fer"], nontrivial=True); run.count("ctx:transitive_type")
+        _, pf, other = observe(tres[i])
+        rp = {"files": files, "entry": "proj/main.fer", "cmd": "ferret -t proj/main.fer", "expected": "rejected: field is private" if must_reject else "accepted"}
+        if tres[i]["panic"]:
+            run.violation("panic:transitive-type", "compiler panicked on an access to a value of a transitively imported type", rp)
+        elif must_reject and (tres[i]["ok"] or not pf):
+            run.violation("unchecked:transitive-type:" + what.split()[0], "private field access `%s` on a value whose type comes from a module that main does not import itself %s"
+                          % (what, "is accepted" if tres[i]["ok"] else "is rejected only for another reason (%s)" % "; ".join(other[:2])), rp)
+        elif not must_reject and not tres[i]["ok"]:
+            run.violation("overreject:transitive-type:" + what.split()[0], "exported field access `%s` on a value of a transitively imported type is rejected: %s" % (what, "; ".join(other[:2])), rp)
     # ---- correspondence with the model (vm_compute)
     bad_total = []
     SH = 220
